@@ -409,3 +409,38 @@ Proof.
   { destruct Hb as [Hb|[-> _]]; [digit_b b Hb|]; reflexivity. }
   rewrite IX. unfold parse_all. rewrite (parse_all_int now (b :: tl) IL fs 0%nat Hfs). rewrite HP. reflexivity.
 Qed.
+
+(* ------------------------------------------------------------------ named constants *)
+(* not later than now, less than one period back; monotone in now (what lets K bracket the real clock) *)
+Lemma const_bounds k t : const_instant k t <= t < const_instant k t + const_period k.
+Proof.
+  unfold const_instant, const_period, weekday_of_days. cbv zeta.
+  destruct k as [|[|[|k]]]; lia.
+Qed.
+
+Lemma const_aligned k t : (1 <= k)%nat -> const_instant k t mod (if Nat.eqb k 1 then 3600000000000 else 86400000000000) = 0.
+Proof.
+  intros Hk. unfold const_instant, weekday_of_days. cbv zeta.
+  destruct k as [|[|[|k]]]; cbn [Nat.eqb]; lia.
+Qed.
+
+(* hour, day, week are monotone in now; `minute` is not: it keeps the nanoseconds of now (10.9 s -> 0.9 s, 11.1 s -> 0.1 s) *)
+Lemma const_mono k t t' : (1 <= k)%nat -> t <= t' -> const_instant k t <= const_instant k t'.
+Proof.
+  intros Hk H. unfold const_instant, weekday_of_days. cbv zeta.
+  destruct k as [|[|[|k]]]; lia.
+Qed.
+Lemma const_minute_not_monotone : exists t t', t <= t' /\ const_instant 0 t' < const_instant 0 t.
+Proof. exists 10900000000, 11100000000. split; [lia|reflexivity]. Qed.
+
+(* what K can say about the constant when the clock was somewhere in [lo, hi] *)
+Lemma const_bracket k lo hi t : lo <= t <= hi -> const_lo k lo <= const_instant k t <= const_hi k hi.
+Proof.
+  intros H. destruct k as [|k].
+  - unfold const_lo, const_hi, const_instant. cbv zeta. lia.
+  - unfold const_lo, const_hi. split; apply const_mono; lia.
+Qed.
+
+(* the week starts on a Sunday *)
+Lemma const_week_sunday t : weekday_of_days (const_instant 3 t / 86400000000000) = 0.
+Proof. unfold const_instant, weekday_of_days. cbv zeta. lia. Qed.
